@@ -64,7 +64,7 @@ def _tlc_cmd(module, cfg, md, workers, heap):
             os.path.join(common.SPEC, module + ".tla")]
 
 
-def model_check(kit, tier, *, emit=True, workers=common.NCPU, timeout=7200, max_states=400000):
+def model_check(kit, tier, *, emit=True, workers=common.NCPU, timeout=7200, max_states=400000, ukey=None):
     """Run the exhaustive model (specification level check) and, concurrently, the emission
     run of the same graph.  Returns dict(states, transitions, depth, alphabet, states_file...)."""
     import subprocess
@@ -73,7 +73,7 @@ def model_check(kit, tier, *, emit=True, workers=common.NCPU, timeout=7200, max_
     d = tempfile.mkdtemp(prefix="mc-", dir=common.scratch())
     t0 = time.time()
     cfg_c = os.path.join(d, "check.cfg")
-    open(cfg_c, "w").write(cfg_text(kit.universes[tier], kit.invariants, kit.properties, False))
+    open(cfg_c, "w").write(cfg_text(kit.universes[ukey or tier], kit.invariants, kit.properties, False))
     out_c = os.path.join(d, "check.out")
     res = {}
 
@@ -88,7 +88,7 @@ def model_check(kit, tier, *, emit=True, workers=common.NCPU, timeout=7200, max_
     emitted_lines = 0
     if emit:
         cfg_e = os.path.join(d, "emit.cfg")
-        open(cfg_e, "w").write(cfg_text(kit.universes[tier], (), (), True))
+        open(cfg_e, "w").write(cfg_text(kit.universes[ukey or tier], (), (), True))
         p = subprocess.Popen(_tlc_cmd(kit.mc_module, cfg_e, os.path.join(d, "me"), max(2, workers // 2), "8g"),
                              stdout=subprocess.PIPE, stderr=subprocess.STDOUT, cwd=common.SPEC, text=True,
                              bufsize=1 << 20)
@@ -131,7 +131,7 @@ def model_check(kit, tier, *, emit=True, workers=common.NCPU, timeout=7200, max_
     gen, distinct, depth = common.tlc_stats(text)
     return {"transitions": gen, "states": distinct, "depth": depth, "alphabet": alphabet,
             "states_file": states_file, "emitted_states": nstates, "wall_s": time.time() - t0,
-            "constants": kit.universes[tier]}
+            "constants": kit.universes[ukey or tier]}
 
 
 # ---------------------------------------------------------------------------
@@ -210,17 +210,33 @@ def s2c(kit, mc, *, budget, seed_, jobs=common.NCPU):
 # ---------------------------------------------------------------------------
 # C->S
 # ---------------------------------------------------------------------------
+def freezing_gen(gen):
+    """wrap a generator of random ops so that histories freeze the network at some point"""
+    from .hg import mkop
+
+    def g(rng, j, nn=6):
+        if not j["frozen"] and rng.random() < 0.12:
+            return mkop("freeze")
+        return gen(rng, j, nn)
+    return g
+
+
 def _c2s_worker(args):
     kitname, hids, seed_, length, extra = args
     kit = _KITS[kitname]
     from . import drive_hg
+
+    extra = dict(extra or {})
+    gen = kit.gen
+    if extra.pop("freeze", False):
+        gen = freezing_gen(gen)
 
     out = []
     for hid in hids:
         rng = random.Random((seed_ << 20) + hid)
         g = kit.families[hid % len(kit.families)]()
         out += drive_hg.run_history(f"{kit.name}{hid}", rng, length, gamma=g, nn=kit.nn, cls=kit.cls,
-                                    call=kit.call, proj=kit.proj, gen=kit.gen, obs=kit.obs, **(extra or {}))
+                                    call=kit.call, proj=kit.proj, gen=gen, obs=kit.obs, **extra)
     return out
 
 
